@@ -998,6 +998,9 @@ class Exec:
 
     def apply_contract(self, p, c, args, kwargs, node, self_val=None, bound=None):
         from .contracts import SpecEnv
+        if c.prefix:
+            # a callee that is itself verified only up to its refusal prefix has no usable summary: the caller's path ends here
+            raise Unsupported("hand-over to %s (verified in prefix mode only)" % c.qualname)
         if bound is None:
             names = list(c.params.keys())
             pos = list(args)
